@@ -6,8 +6,7 @@
 
 package limit
 
-//@ pred validRate(r)
-//@   [C13 C04 C12] r.Interval > 0 && r.Quantity > 0
+// ---------------------------------------------------------------- C13: rate conversion
 
 // C13: the statement of the property, as a predicate over (receiver, minimum, results).
 //@ pred recalcOK(rt, minimum, r, err)
@@ -22,7 +21,7 @@ package limit
 //@   [C13] not-slower: err == nil ==> (r.Quantity + 1) * rt.Interval > rt.Quantity * r.Interval
 
 //@ func Rate.IsValid
-//@   ensures [C13 C04 C12] valid-iff: (result == nil) <==> (rt.Interval > 0 && rt.Quantity > 0)
+//@   ensures [* C13 C04 C12] valid-iff: (result == nil) <==> (rt.Interval > 0 && rt.Quantity > 0)
 //@   ensures [C13] error-kind: result != nil ==> (result == ErrIntervalNegative || result == ErrIntervalZero || result == ErrQuantityZero)
 
 //@ func Rate.Recalculate
@@ -39,3 +38,128 @@ package limit
 //@   ensures [C13] quotient: result1 == nil ==> result0 == (quantity * minimum) / interval
 //@   ensures [C13] unrepresentable: result1 != nil ==> result0 == 0 && (quantity * minimum) / interval >= two64
 //@   ensures [C13] error-kind: result1 == nil || result1 == ErrConvertedQuantityUnrepresentable
+
+// ---------------------------------------------------------------- C04, C12: the discipline
+//
+// Ghost state (updated only by the channel / clock events below, never by the code):
+//   gIn[0..gInN)  elements received from the input, in order
+//   gOutN         elements sent to the output
+//   gClosed       the input was observed closed
+//   gBatch        elements sent since the last Sleep
+//   gK            number of Sleeps so far (= index of the current batch)
+//   gT0           clock value at creation
+
+//@ ghost var gIn map[int]T
+//@ ghost var gInN int
+//@ ghost var gOutN int
+//@ ghost var gClosed bool
+//@ ghost var gBatch int
+//@ ghost var gK int
+//@ ghost var gT0 time
+
+//@ event recv dsc.opts.Input (item, opened)
+//@   effect gIn := ite(opened, store(gIn, gInN, item), gIn)
+//@   effect gInN := ite(opened, gInN + 1, gInN)
+//@   effect gClosed := gClosed || !opened
+
+// The formulas of C04 and C12 at the moment an element leaves:
+//@ event send dsc.output (v)
+//@   requires [C12] in-order-no-loss-no-dup: gOutN < gInN && v == gIn[gOutN]
+//@   requires [C04] quota: gOutN + 1 <= dsc.opts.Limit.Quantity * ((gClock - gT0) / dsc.opts.Limit.Interval + 1)
+//@   effect gOutN := gOutN + 1
+//@   effect gBatch := gBatch + 1
+
+//@ event close dsc.output
+//@   requires [C12] closed-only-after-everything-was-forwarded: gClosed && gOutN == gInN
+
+//@ event call time.Sleep (d)
+//@   requires [C12] pause-only-after-a-full-batch: gBatch == dsc.opts.Limit.Quantity
+//@   requires [C12] pause-at-most-interval: d <= dsc.opts.Limit.Interval
+//@   effect gK := gK + 1
+//@   effect gBatch := 0
+
+//@ pred WF(dsc)
+//@   [*] dsc != nil && dsc.opts.Limit.Interval > 0 && dsc.opts.Limit.Quantity > 0
+//@   [*] gK >= 0 && gBatch >= 0 && gOutN >= 0 && gInN >= 0
+
+// Batch k starts no earlier than gT0 + k*Interval and at most Quantity*k elements left before it.
+//@ pred PACE(dsc)
+//@   [C04] gOutN <= dsc.opts.Limit.Quantity * gK + gBatch
+//@   [C04] gClock >= gT0 + gK * dsc.opts.Limit.Interval
+
+//@ func (*Discipline).send
+//@   requires [*] WF(dsc)
+//@   ensures [*] WF(dsc)
+//@   requires [C12] gOutN + 1 == gInN && item == gIn[gOutN]
+//@   requires [C04] PACE(dsc)
+//@   requires [C04] gBatch < dsc.opts.Limit.Quantity
+//@   modifies gOutN, gBatch
+//@   ensures [*] gOutN == old(gOutN) + 1 && gBatch == old(gBatch) + 1
+
+//@ func (*Discipline).pass
+//@   requires [*] WF(dsc)
+//@   ensures [*] WF(dsc)
+//@   requires [*] gBatch == 0
+//@   requires [C12] gInN == gOutN && !gClosed
+//@   requires [C04] PACE(dsc)
+//@   modifies gIn, gInN, gOutN, gClosed, gBatch
+//@   ensures [*] gBatch <= dsc.opts.Limit.Quantity && gOutN == old(gOutN) + gBatch
+//@   ensures [*] !result ==> gBatch == dsc.opts.Limit.Quantity
+//@   ensures [C12] gInN == gOutN && (result <==> gClosed)
+//@   loop 0
+//@     invariant [*] WF(dsc)
+//@     invariant [*] gBatch == $i && gOutN == old(gOutN) + gBatch
+//@     invariant [C12] gInN == gOutN && !gClosed
+
+//@ func (*Discipline).transfer
+//@   requires [*] WF(dsc)
+//@   ensures [*] WF(dsc)
+//@   requires [*] gBatch == 0
+//@   requires [C12] gInN == gOutN && !gClosed
+//@   requires [C04] PACE(dsc)
+//@   modifies gIn, gInN, gOutN, gClosed, gBatch, gClock
+//@   ensures [*] gBatch <= dsc.opts.Limit.Quantity && gOutN == old(gOutN) + gBatch
+//@   ensures [*] !result1 ==> gBatch == dsc.opts.Limit.Quantity && result0 >= 0
+//@   ensures [C04] !result1 ==> gClock - result0 >= old(gClock) && gClock >= old(gClock)
+//@   ensures [C12] gInN == gOutN && (result1 <==> gClosed)
+
+//@ func (*Discipline).delay
+//@   requires [*] WF(dsc)
+//@   ensures [*] WF(dsc)
+//@   requires [*] duration >= 0
+//@   requires [C12] gBatch == dsc.opts.Limit.Quantity
+//@   requires [C04] gClock - duration >= gT0 + gK * dsc.opts.Limit.Interval
+//@   modifies gClock, gK, gBatch
+//@   ensures [*] gK == old(gK) + 1 && gBatch == 0
+//@   ensures [C04] gClock >= gT0 + gK * dsc.opts.Limit.Interval
+
+//@ func (*Discipline).loop
+//@   requires [*] WF(dsc)
+//@   requires [*] gBatch == 0
+//@   requires [C12] gInN == gOutN && !gClosed
+//@   requires [C04] PACE(dsc)
+//@   modifies gIn, gInN, gOutN, gClosed, gBatch, gClock, gK
+//@   ensures [C12] gClosed && gInN == gOutN
+//@   loop 0
+//@     invariant [*] WF(dsc)
+//@     invariant [*] gBatch == 0
+//@     invariant [C12] gInN == gOutN && !gClosed
+//@     invariant [C04] PACE(dsc)
+
+//@ func (*Discipline).main
+//@   requires [*] WF(dsc)
+//@   requires [*] gBatch == 0
+//@   requires [C12] gInN == gOutN && !gClosed
+//@   requires [C04] PACE(dsc)
+//@   modifies gIn, gInN, gOutN, gClosed, gBatch, gClock, gK
+
+//@ func Opts.isValid
+//@   ensures [* C04 C12] (result == nil) <==> (opts.Input != nil && opts.Limit.Interval > 0 && opts.Limit.Quantity > 0)
+
+// The ghost state of a discipline that does not exist yet is empty; gT0 is the clock at creation.
+// The capacity of the input plus one is a size the runtime can allocate (source comment in New).
+//@ func New
+//@   requires [*] ghost-initial-state: gInN == 0 && gOutN == 0 && !gClosed && gBatch == 0 && gK == 0 && gT0 == gClock
+//@   requires [*] allocatable: cap(opts.Input) + 1 < two63
+//@   ensures [C04 C12] (result1 == nil) <==> (opts.Input != nil && opts.Limit.Interval > 0 && opts.Limit.Quantity > 0)
+//@   ensures [*] result1 == nil ==> result0 != nil
